@@ -876,7 +876,7 @@ def c09(tier):
     th = tier == "thorough"
     names = list(c09_scenarios())
     if th:
-        names += ["gen%d" % i for i in range(34)]
+        names += ["gen%d" % i for i in range(110)]
     else:
         names += ["gen%d" % (seed() * 5 + i) for i in range(6)]
     jobs = [(n, d) for n in names for d in DIRECTIONS]
